@@ -136,7 +136,7 @@ def c07_2(rep, ix, O):
     found = False
     for z in zips:
         srcs = [u(resolve(f.node, a)) for a in z.args]
-        if any(".modes" in s or "_modes" in s for s in srcs):
+        if any("modes" in s for s in srcs):
             found = True
             first = resolve(f.node, z.args[0])
             okz = isinstance(first, ast.Call) and u(first.func) == "sorted" and len(first.args) == 1 and not first.keywords and len(z.args) == 2
